@@ -664,7 +664,15 @@ pub fn hash_choice(s: &str) -> Option<HashChoice> {
 pub fn resolve_line(expr: &str, kind: &str, choice: &str) -> String {
     let Some(r) = resolver_from_expr(expr) else { return "badexpr".into() };
     match kind {
-        "rng" => if r.resolve_rng().is_some() { "some".into() } else { "none".into() },
+        "rng" => match r.resolve_rng() {
+            None => "none".into(),
+            Some(mut g) => {
+                // recognisable (marked) sources yield one non-zero byte value forever
+                let mut b = [0u8; 8];
+                rand_core::RngCore::fill_bytes(&mut *g, &mut b);
+                if (b[0] == 1 || b[0] == 2) && b.iter().all(|x| *x == b[0]) { format!("some mark={:02x}", b[0]) } else { "some".into() }
+            },
+        },
         "dh" => match dh_choice(choice).and_then(|c| r.resolve_dh(&c)) {
             Some(d) => format!("some name={} a={} b={} c={}", d.name(), d.pub_len(), d.priv_len(), d.dh_len()),
             None => "none".into(),
